@@ -296,6 +296,17 @@ def gen_pair(rng, family, repo, ta=None, tb=None, thorough=False, shipped=None):
         sh = [rng.uniform(-0.3, 0.3) * ex / len(a['base']['rect'][0]), rng.uniform(-0.3, 0.3) * ey / len(a['base']['rect'][1]),
               rng.choice([0., rng.uniform(-0.3, 0.3) * ez / len(a['base']['rect'][2])])]
         b['ops'].append(['translate', sh])
+        r = rng.random()
+        if r < 0.5:
+            # vertical shifts by MORE than the top layer (up or down), of the default-surface grids themselves: both
+            # geometries are moved (the target a little further), so the moved source faces blocks above its old top;
+            # half of the time the moved geometry of the pair is the source
+            dz = a['base']['rect'][2]
+            v = rng.choice([-1, 1, 1]) * rng.uniform(1.1, 2.6) * dz[0]
+            b['ops'][-1][1][2] = v + rng.choice([0., 0., 0.4 * dz[0], -0.4 * dz[0]])
+            if r < 0.35: a['ops'].append(['translate', [0., 0., v]])
+            if rng.random() < 0.5:
+                a, b = b, a; a['base']['atmos_type'] = ta; b['base']['atmos_type'] = tb
     elif family == 'reconvention':
         # the same grid (possibly shifted a little) under a DIFFERENT naming convention: layer and column
         # names, incl. the atmosphere layer's (' 0' / 'atm' / 'at'), differ between source and target
@@ -350,7 +361,9 @@ def moves(rng, g):
     (x0, y0), (x1, y1) = g.bounds
     n = max(1, int(round(g.num_columns ** 0.5)))
     w = max(float(x1 - x0), float(y1 - y0)) / n
-    out = [['translate', [rng.choice([-1, 1]) * rng.uniform(0.8, 1.6) * w, rng.choice([-1, 1]) * rng.uniform(0.8, 1.6) * w, 0.]],
+    top_thick = float(g.layerlist[1].top - g.layerlist[1].bottom)
+    out = [['translate', [rng.choice([-1, 1]) * rng.uniform(0.8, 1.6) * w, rng.choice([-1, 1]) * rng.uniform(0.8, 1.6) * w,
+                          rng.choice([0., 1., 1., -1.]) * rng.uniform(1.1, 2.6) * top_thick]],       # also up/down by more than the top layer
            ['rotate', rng.choice([90., 180., rng.uniform(20., 70.)])]]
     bottoms = [float(l.bottom) for l in g.layerlist[1:]]
     if len(bottoms) > 1:
